@@ -31,3 +31,7 @@ Proof. exact nominated_success_site. Qed.
 
 Theorem C11_call_site_inventory : map (fun x => (fst (fst x), snd x)) call_sites = expected_sites.
 Proof. exact inventory. Qed.
+
+(** ... and the guard in front of each of those calls is the one the call-site programs above were written from *)
+Theorem C11_call_site_guards : call_site_guards = expected_guards.
+Proof. exact guards. Qed.
